@@ -197,12 +197,17 @@ class SymBytes:
             p = p + s.length
         return SymBytes(out)
 
-    def coalesced(self):
-        """Merge neighbouring file segments that are provably adjacent in the file (decided exactly)."""
+    def coalesced(self, fork=False):
+        """Merge neighbouring file segments that are provably adjacent in the file (decided exactly).
+        fork=True: decide (branch on) whether each symbolic-length segment is empty, so the structure is definite."""
         out = []
         for s in self.segs:
-            if isinstance(s.length, SymInt) and eng().decide_case(s.length > 0) is None:
-                continue  # provably empty
+            if isinstance(s.length, SymInt):
+                if fork:
+                    if not (s.length > 0):
+                        continue
+                elif eng().decide_case(s.length > 0) is None:
+                    continue  # provably empty
             if out and out[-1].kind == s.kind and s.kind in ("file", "opaque") and out[-1].src is not None \
                     and (out[-1].src is s.src or (isinstance(s.src, str) and out[-1].src == s.src)):
                 p = out[-1]
@@ -216,7 +221,7 @@ class SymBytes:
     def structurally_equal(self, o):
         """Equality of two symbolic byte strings under the idealisation that bytes from different sources are
         independent: same segment structure, sources, starts and lengths. Returns SymBool/bool."""
-        a, b = self.coalesced(), SymBytes.lift(o).coalesced()
+        a, b = self.coalesced(fork=True), SymBytes.lift(o).coalesced(fork=True)
         if len(a.segs) != len(b.segs):
             return False
         conds = []
